@@ -64,15 +64,19 @@ impl DecoderWork {
         index: usize,
         original_shard: T,
     ) -> Result<(), Error> {
-        let pos = self.original_base_pos + index;
         let original_shard = original_shard.as_ref();
 
         if index >= self.original_count {
-            Err(Error::InvalidOriginalShardIndex {
+            return Err(Error::InvalidOriginalShardIndex {
                 original_count: self.original_count,
                 index,
-            })
-        } else if self.received[pos] {
+            });
+        }
+
+        // Computed only for valid `index`, so this can't overflow.
+        let pos = self.original_base_pos + index;
+
+        if self.received[pos] {
             Err(Error::DuplicateOriginalShardIndex { index })
         } else if original_shard.len() != self.shard_bytes {
             Err(Error::DifferentShardSize {
@@ -93,15 +97,19 @@ impl DecoderWork {
         index: usize,
         recovery_shard: T,
     ) -> Result<(), Error> {
-        let pos = self.recovery_base_pos + index;
         let recovery_shard = recovery_shard.as_ref();
 
         if index >= self.recovery_count {
-            Err(Error::InvalidRecoveryShardIndex {
+            return Err(Error::InvalidRecoveryShardIndex {
                 recovery_count: self.recovery_count,
                 index,
-            })
-        } else if self.received[pos] {
+            });
+        }
+
+        // Computed only for valid `index`, so this can't overflow.
+        let pos = self.recovery_base_pos + index;
+
+        if self.received[pos] {
             Err(Error::DuplicateRecoveryShardIndex { index })
         } else if recovery_shard.len() != self.shard_bytes {
             Err(Error::DifferentShardSize {
@@ -187,9 +195,14 @@ impl DecoderWork {
 
     // This must only be called by `DecoderResult`.
     pub(crate) fn restored_original(&self, index: usize) -> Option<&[u8]> {
+        if index >= self.original_count {
+            return None;
+        }
+
+        // Computed only for valid `index`, so this can't overflow.
         let pos = self.original_base_pos + index;
 
-        if index < self.original_count && !self.received[pos] {
+        if !self.received[pos] {
             Some(&self.shards[pos].as_flattened()[..self.shard_bytes])
         } else {
             None
